@@ -79,7 +79,7 @@ def floor(tier):
     b = budget(tier)
     f = {"loop-asan": b["la"] * b["sh"], "pool-tsan": b["pt"] * b["sh"], "pool-asan": b["pa"] * b["sh"]}
     if include_known():
-        f["fixed"] = 12 + 144 + 72 + 80
+        f["fixed"] = 12 + 144 + 72 + 80 + 54
     for rn in REACTORS.values():
         f["loop-tsan-" + rn] = b["lt"] * b["sh"]
     return f
